@@ -10,8 +10,8 @@ from vlib.engine import Prop, Failure
 from props import msagen as G
 
 ROUNDTRIP_PROVED = ["afa", "phylip", "phylips", "clustal", "clustallike", "psiblast", "a2m (consensus and insert columns, reader padding)", "selex (with #=RF/#=CS/#=MM/#=SS/#=SA)",
-                    "pfam and stockholm multi-block (names, rows, parsed and unparsed #=GC, comments, #=GF incl. unparsed tags and cut-off flags, #=GR incl. unparsed tags under grOrderOk, #=GS AC/DE/unparsed tags under gsOrderOk)"]
-ROUNDTRIP_NOT_PROVED = ["round-trip THEOREM missing (executable writer + reader models compared with the library, monitors only): stockholm/pfam weights (#=GS WT) and multi-line #=GS values; "
+                    "pfam and stockholm multi-block (names, rows, parsed and unparsed #=GC, comments, #=GF incl. unparsed tags and cut-off flags, #=GR incl. unparsed tags under grOrderOk, #=GS WT/AC/DE/unparsed tags under gsOrderOk: stockholm_roundtrip_full)"]
+ROUNDTRIP_NOT_PROVED = ["round-trip THEOREM missing (executable writer + reader models compared with the library, monitors only): stockholm/pfam multi-line #=GS values; "
                         "numeric value of weights / cut-offs", "autodetection of SELEX / PSI-BLAST / PHYLIP output (monitors only)"]
 MODELLED = ["afa", "a2m", "psiblast", "clustal", "clustallike", "phylip", "phylips", "selex", "stockholm", "pfam"]      # writer + reader models, bytes and re-read alignment compared
 WRITER_ONLY = []
@@ -80,7 +80,7 @@ A2M_INS_LEMMAS = ('a2mRead_write_ins', 'a2mRead_writeLines_ins', 'a2mInsTextWrit
 
 STO_ANN_THEOREMS = ('stockholm_roundtrip_gc', 'stockholm_roundtrip_gr', 'stockholm_roundtrip_gs_partial', 'stockholm_roundtrip_full_partial',
                     'exStoGc_writable', 'exStoGr_writable', 'exStoGs_writable', 'stockholm_ann_write_accepted', 'stockholm_ann_write_accepted_digital',
-                    'stockholm_ann_write_accepted_gen')
+                    'stockholm_ann_write_accepted_gen', 'stockholm_roundtrip_gs', 'stockholm_roundtrip_full', 'exStoWt_writable')
 READ_DOMAIN_THEOREMS = ('a2mCfg_valid_of', 'a2m_read_in_domain_digital', 'a2m_read_in_domain_text', 'a2m_reformat_idempotent_text', 'a2m_reformat_stable_digital',
                         'a2m_reformat_stable_digital_of_lines', 'a2m_reformat_stable_text', 'a2m_reformat_stable_text_of_lines', 'afaCfg_valid_of',
                         'afa_read_in_domain_digital', 'afa_read_in_domain_text', 'afa_reformat_stable_digital', 'afa_reformat_stable_digital_of_lines',
@@ -93,7 +93,7 @@ READ_DOMAIN_THEOREMS = ('a2mCfg_valid_of', 'a2m_read_in_domain_digital', 'a2m_re
 READ_DOMAIN_LEMMAS = ('a2mRead_nd', 'a2mRead_domain_text', 'a2mRead_domain_digital', 'a2mHdrOkB_of_lines', 'afaRead_nd', 'afaRead_domain_text', 'afaRead_domain_digital',
                       'afaHdrOkB_of_lines', 'clustalRead_nd', 'clustalRead_domain_text', 'clustalRead_domain_digital', 'psiblastRead_nd', 'psiblastRead_domain_text',
                       'psiblastRead_domain_digital', 'phylipRead_nd', 'phylipRead_domain_text', 'phylipRead_domain_digital', 'phylipRead_project_names', 'strtoi32_le',
-                      'wgtTokOk_of_nonneg')
+                      'wgtTokOk_of_nonneg', 'gsOrderOk_of_hasw')
 
 
 class C03(Prop):
@@ -128,7 +128,9 @@ class C03(Prop):
                   "unparsed #=GC tags, comments, #=GF ID/AC/DE/AU, unparsed #=GF tags in order, which score cut-offs are set, per-residue #=GR SS/SA/PP and unparsed #=GR tags "
                   "(hypothesis grOrderOk: first-mention order of the tags = their order), per-sequence #=GS AC/DE and unparsed #=GS tags (hypothesis gsOrderOk: the first #=GS kind "
                   "written covers every sequence - both hypotheses are shown NECESSARY by proved counter-examples exStoGrBad / exStoGsBad = the known finding first-mention-order) "
-                  "[stockholm_roundtrip_full_partial: everything except weights]; for each: the output is a function of the alignment (`_write_deterministic`), is "
+                  "and weights (#=GS WT: every weight's %.2f token must be a real that is not read as -1.0 = unset - `wgtTokOk`, proved for every finite non-negative double; with weights the WT "
+                  "lines name every sequence first, so gsOrderOk holds for ANY sparse AC/DE: gsOrderOk_of_hasw) [stockholm_roundtrip_full: names, rows, #=GC, comments, #=GF, cut-off flags, #=GR, "
+                  "#=GS incl. WT]; for each: the output is a function of the alignment (`_write_deterministic`), is "
                   "accepted, the next read is EOF and the re-read alignment is well formed (`_write_accepted`), what is preserved exactly (`_preserves_names_rows`, `selex_ann_preserves`, "
                   "`a2m_rows_text/digital`), and write(read(write m)) = write m (`_rewrite_same`, text and digital; Stockholm for ANY annotation without weights/cut-offs). Autodetection of "
                   "library-written Stockholm/Pfam, Clustal, Clustal-like, aligned FASTA output selects the format for EVERY alignment, and open(auto) + read gives the same alignment "
@@ -142,7 +144,7 @@ class C03(Prop):
                   "`afaHdrOkB`; aligned FASTA text mode also `afaNoGtB`: no '>' residue), for Clustal under `cluNamesNeB` (no empty name) and the not-a-consensus-line condition, for "
                   "PHYLIP (both variants; names come back <= 10 graphic characters, nseq/alen <= 2^31-1 proved from esl_mem_strtoi32) under `phyNamesNeB` and, text mode, "
                   "`phyRowsSymB` (the writer upper-cases), for PSI-BLAST partially (no lower-case residue); each side condition is shown necessary by a proved counter-example on the model (listed in DESIGN / the report). "
-                  "NOT PROVED (monitors + executable models only): Stockholm/Pfam weights (#=GS WT; the reader model keeps set/unset only) and multi-line #=GS values; A2M with separate "
+                  "NOT PROVED (monitors + executable models only): Stockholm/Pfam multi-line #=GS values and optional arrays with no entry set; A2M with separate "
                   "accessions; reformat stability for SELEX, Stockholm; numeric VALUE of weights and cut-offs (the reader model keeps set/unset); autodetection of SELEX/PSI-BLAST/PHYLIP output.")
     level_note = ("Lean models of ALL ten writers (incl. stockholm_write with margins, wrapping, unique-name forcing and exact printf %.2f/%.1f; PHYLIP with ESL_MSAFILE_FMTDATA namewidth/rpl) "
                   "and ten readers are compared byte for byte / field for field with the library on every case. printf/strtod of 2-/1-decimal weights and cut-offs is trusted "
